@@ -482,6 +482,84 @@ example : (toMat 2 2 (⟨[4, 2, 2, 5], 2, 2⟩ : Matrix ℝ)).transpose = toMat 
   ext i j
   fin_cases i <;> fin_cases j <;> simp [toMat, Decomp.get, EasyMl.Matrix.getIndex]
 
+/-! ### uniqueness, and the relation between the two symmetric factorisations -/
+
+/-- **The Cholesky factor is unique**: two lower-triangular real matrices with positive diagonals
+    and the same product `M·Mᵀ` are equal — both are what the model computes from that product. -/
+theorem cholesky_unique {n : ℕ} (M₁ M₂ : _root_.Matrix (Fin n) (Fin n) ℝ)
+    (hlow₁ : ∀ i j, i < j → M₁ i j = 0) (hpos₁ : ∀ i, 0 < M₁ i i)
+    (hlow₂ : ∀ i j, i < j → M₂ i j = 0) (hpos₂ : ∀ i, 0 < M₂ i i)
+    (h : M₁ * M₁.transpose = M₂ * M₂.transpose) : M₁ = M₂ := by
+  -- the model tensor of the common product
+  let A : Matrix ℝ := ofFn n n fun i j =>
+    if hij : i < n ∧ j < n then (M₁ * M₁.transpose) ⟨i, hij.1⟩ ⟨j, hij.2⟩ else 0
+  have hA : toMat n n A = M₁ * M₁.transpose := by
+    ext i j
+    rw [toMat_apply, get_ofFn _ _ _ _ _ i.isLt j.isLt, dif_pos ⟨i.isLt, j.isLt⟩]
+  obtain ⟨L₁, h1, _, e1⟩ := cholesky_complete A rfl M₁ hlow₁ hpos₁ hA
+  obtain ⟨L₂, h2, _, e2⟩ := cholesky_complete A rfl M₂ hlow₂ hpos₂ (hA.trans h)
+  rw [h1] at h2
+  cases h2
+  exact e1.symm.trans e2
+
+/-- **LDLᵀ and Cholesky of a positive definite input are related by `L_chol = L·√D`**: both
+    models are present, every diagonal entry of `D` is positive, and column `j` of the Cholesky
+    factor is column `j` of the unit-triangular `L` scaled by `√D[j,j]`. -/
+theorem cholesky_eq_ldlt_sqrt (A : Matrix ℝ) (hsq : A.rows = A.columns)
+    (hPD : (toMat A.rows A.rows A).PosDef) :
+    ∃ Lc L D, cholesky A = some Lc ∧ ldlt A = some (L, D) ∧
+      (∀ i : Fin A.rows, 0 < toMat A.rows A.rows D i i) ∧
+      ∀ i j : Fin A.rows,
+        toMat A.rows A.rows Lc i j = toMat A.rows A.rows L i j * Real.sqrt (toMat A.rows A.rows D j j) := by
+  obtain ⟨L, D, hld, _, _, hlow, hone, hdiag, hprod⟩ := ldlt_spd A hsq hPD
+  set Lm := toMat A.rows A.rows L with hLm
+  set Dm := toMat A.rows A.rows D with hDm
+  -- `L` is invertible, so `D` is positive definite
+  have hdet : Lm.det = ∏ i, Lm i i := Matrix.det_of_isLowerTriangular Lm (fun i j hij => hlow i j hij)
+  have hunit : IsUnit Lm := by
+    rw [Matrix.isUnit_iff_isUnit_det, hdet]
+    simp [hone]
+  have hDpd : Dm.PosDef := by
+    have h1 : (Lm * Dm * star Lm).PosDef := by
+      rw [Matrix.star_eq_conjTranspose, Matrix.conjTranspose_eq_transpose_of_trivial, hprod]
+      exact hPD
+    exact (Matrix.IsUnit.posDef_star_right_conjugate_iff hunit).mp h1
+  have hDpos : ∀ i, 0 < Dm i i := fun i => hDpd.diag_pos
+  -- the Cholesky factor
+  let M : _root_.Matrix (Fin A.rows) (Fin A.rows) ℝ := fun i j => Lm i j * Real.sqrt (Dm j j)
+  have hLD : ∀ i k, (Lm * Dm) i k = Lm i k * Dm k k := by
+    intro i k
+    rw [Matrix.mul_apply, Finset.sum_eq_single k]
+    · intro b _ hbk
+      rw [hdiag b k hbk, mul_zero]
+    · intro hk; exact absurd (Finset.mem_univ k) hk
+  have hMM : toMat A.rows A.rows A = M * M.transpose := by
+    rw [← hprod]
+    ext i j
+    rw [Matrix.mul_apply, Matrix.mul_apply]
+    apply Finset.sum_congr rfl
+    intro k _
+    rw [hLD, Matrix.transpose_apply, Matrix.transpose_apply]
+    simp only [M]
+    have := Real.mul_self_sqrt (hDpos k).le
+    calc Lm i k * Dm k k * Lm j k = Lm i k * (Real.sqrt (Dm k k) * Real.sqrt (Dm k k)) * Lm j k := by rw [this]
+      _ = Lm i k * Real.sqrt (Dm k k) * (Lm j k * Real.sqrt (Dm k k)) := by ring
+  have hMlow : ∀ i j, i < j → M i j = 0 := by
+    intro i j hij; simp only [M]; rw [hlow i j hij, zero_mul]
+  have hMpos : ∀ i, 0 < M i i := by
+    intro i; simp only [M]; rw [hone i, one_mul]; exact Real.sqrt_pos.mpr (hDpos i)
+  obtain ⟨Lc, hc, _, hcm⟩ := cholesky_complete A hsq M hMlow hMpos hMM
+  refine ⟨Lc, L, D, hc, hld, hDpos, ?_⟩
+  intro i j
+  rw [hcm]
+
+/-- Non-vacuity of `cholesky_unique`: the factor `[[2,0],[1,2]]` meets the hypotheses. -/
+example : (∀ i j : Fin 2, i < j → (!![2, 0; 1, 2] : _root_.Matrix (Fin 2) (Fin 2) ℝ) i j = 0) ∧
+    (∀ i : Fin 2, 0 < (!![2, 0; 1, 2] : _root_.Matrix (Fin 2) (Fin 2) ℝ) i i) := by
+  constructor
+  · intro i j hij; fin_cases i <;> fin_cases j <;> simp_all
+  · intro i; fin_cases i <;> simp
+
 /-! ### shape rejection -/
 
 /-- Non-square inputs are rejected by Cholesky and LDLᵀ (any element type). -/
